@@ -18,7 +18,10 @@ def histories(rng, n, max_ops, hostile, deep=0):
         # trees nested deeper than the parser's own limit can only be built through the DOM
         h = D.Hist(rng, max_ops=3, hostile=0.0)
         t, ops = h.history()
-        out.append((t, ops + h.deep_chain(140 + 10 * k) + ["ce:z", "ap:h1:h%d" % (len(h.shadow))]))
+        if k % 2 == 0:
+            out.append((t, ops + h.deep_chain(140 + 10 * k) + ["ce:z", "ap:h1:h%d" % (len(h.shadow))]))
+        else:
+            out.append((t, ops + h.deep_chain_up(125 + 5 * k)))
     return out
 
 
@@ -67,7 +70,7 @@ def common(chk, prop, thorough, n_quick, n_thorough, max_ops_q, max_ops_t, hosti
         pr["failed"] = list(pr["failed"]) + list(pr2["failed"])
         pr["log"] = pr["log"] + pr2["log"]
     n = n_thorough if thorough else n_quick
-    cases = histories(rng, n, max_ops_t if thorough else max_ops_q, hostile, deep=2 if prop in ("C14", "C12") else 0)
+    cases = histories(rng, n, max_ops_t if thorough else max_ops_q, hostile, deep=4 if prop in ("C14", "C12") else 2)
     cases += [(t, ops.split(" ")) for t, ops in (l.split("\t", 1) for l in X.corpus_lines(prop, "found.txt") if "\t" in l)]
     impl, model = run_histories(cases)
     ri = [D.split_records(a) for a in impl]
@@ -341,6 +344,33 @@ def run_c15(chk):
                 mfail.append((t, ops, i, "after calls that all reported success the serialization is rejected by the parser or denotes "
                               "other content than the DOM reports", v))
                 break
+    # ---- attributes supplied from attribute-list defaults: their value items are reachable (and editable) through the DOM;
+    # whatever the edits do, the document must still print to text the parser accepts and that denotes what the DOM reports
+    # (monitor only: the DOM model does not hold defaulted attributes)
+    ddocs = ["<!DOCTYPE r [<!ATTLIST r d CDATA \"it's\">]><r/>", "<!DOCTYPE r [<!ATTLIST r d CDATA 'say \"hi\"' e CDATA #FIXED 'f'>]><r><k/></r>",
+             "<!DOCTYPE r [<!ENTITY e 'v'><!ATTLIST r d CDATA 'a&e;b'>]><r d2='x'/>"]
+    dvals = [" say \"hi\"", "it's", "'", "\"", "a]]>b", "x--y", "&", "<", "", " ", "\u00e9"]
+    dlines, dmeta = [], []
+    for dd in ddocs:
+        for v in dvals:
+            for tmpl in (["ga:h2:d", "ch:h3:0", "ad:h4:V"], ["ga:h2:d", "ch:h3:0", "sd:h4:V"], ["ga:h2:d", "ch:h3:0", "id:h4:1:V"],
+                         ["ga:h2:d", "sv:h3:V"], ["ga:h2:d", "ch:h3:0", "rd:h4:0:2:V"], ["ga:h2:d", "ct:V", "ap:h3:h4"],
+                         ["ga:h2:d", "ct:V", "ap:h2:h4", "ap:h3:h6", "ib:h2:h4:-", "rm:h3:h4"]):
+                ops = [o.replace("V", D.enc2(v)) for o in tmpl]
+                dlines.append(lib.req("dom", dd, "", *ops))
+                dmeta.append((dd, ops))
+    douts = lib.run_lines(lib.build_harness(), dlines, timeout=600, per_line_resume=True)
+    for (dd, ops), o in zip(dmeta, douts):
+        for i, rec in enumerate(D.split_records(o)):
+            chk.count(["default-edit", dd] + ops[:i], nontrivial=i > 0)
+            v = rec["flags"].get("rt")
+            if rec["status"] == "panic" and i > 0 and ops[i - 1].split(":")[0] in ("ct", "cc", "cd") and known_panic(findings, chk, ops[i - 1]):
+                break
+            if rec["status"] in ("panic", "abort", "timeout") or (v is not None and v not in ("ok", "skip")):
+                mfail.append((dd, ops, i, "after editing the value items of an attribute supplied from an attribute-list default the "
+                              "serialization is rejected by the parser or denotes other content than the DOM reports", str(v) + " " + rec["status"]))
+                break
+    chk.cov["default_edit_histories"] = len(dlines)
     chk.cov["successful_calls"] = succ
     chk.cov["rule"] = ("%d histories of creation, insertion and data-editing calls with argument strings of up to 4 pieces over "
                        "{a, space, <, &, >, ', \", -, ], ?, ;, #, e-acute, ]]>, --, ?>, &amp;, &#65;} (45%% hostile choices); after EVERY "
